@@ -1,14 +1,287 @@
 import Astria.RelayerCrash.Model
 import Driver.Common
-/- Area `crash` (stub): replays the trace through the model. -/
+/- Area `crash` (property C11): replays the controller steps of the crash/restart harness through
+   `Astria.RelayerCrash.step`, compares result + complete observable state line by line, and
+   evaluates the C11 spec on what the implementation (state file, fake Celestia chain) reported. -/
 namespace Driver.CrashArea
+open Astria.RelayerCrash
+
+def fmtSub (l : Sub) : String := s!"{l.ch}:{l.sh}"
+
+def fmtSt : FileSt → String
+  | .fresh => "fresh"
+  | .started l => s!"started:{fmtSub l}"
+  | .prepared h l t => s!"prepared:{h}:{fmtSub l}:t{t}"
+
+def fmtContent (missing : String) : Option Content → String
+  | none => missing
+  | some .bad => "bad"
+  | some (.ok st) => fmtSt st
+
+def joinOr (xs : List String) : String := if xs.isEmpty then "-" else ",".intercalate xs
+
+def fmtTx (w : World) (t : Nat) : String :=
+  let hs := match w.txs.find? (·.id = t) with
+    | some tx => tx.hs
+    | none => []
+  s!"t{t}[{",".intercalate (hs.map toString)}]"
+
+def fmtOpt : Option Nat → String
+  | none => "-"
+  | some n => toString n
+
+def pendOf (w : World) : List String :=
+  match w.proc with
+  | none => []
+  | some p =>
+    (match p.inflight with | some h => [s!"fetch:{h}"] | none => []) ++
+    (match p.ongoing with | .bcast _ t => [s!"bcast:{fmtTx w t}"] | _ => []) ++
+    (match p.ongoing with | .cget _ t | .fget _ t => [s!"gettx:t{t}"] | _ => []) ++
+    (match p.su with | .lget _ _ t => [s!"gettx:t{t}"] | _ => [])
+
+def dump (w : World) : String :=
+  let procS := match w.proc with
+    | none => "down"
+    | some p => s!"up obs={fmtOpt p.observed} req={fmtOpt p.requested} fet={fmtOpt p.fetched} cc={fmtOpt p.cc}"
+  s!"file={fmtContent "missing" w.file} tmp={fmtContent "-" w.tmp} pend={joinOr (pendOf w)} " ++
+  s!"mem={joinOr (w.mempool.map (fmtTx w))} " ++
+  s!"chain={joinOr (w.chain.map (fun e => s!"{e.1}:{fmtTx w e.2}"))} latest={w.latest} np={w.np} proc={procS}"
+
+/-- name of the await the process is blocked at (statistics: which crash points were hit) -/
+def phase (w : World) : String :=
+  match w.proc with
+  | none => "down"
+  | some p =>
+    match p.boot with
+    | .read => "boot_read" | .wTmp _ => "boot_wtmp" | .wRen _ => "boot_wren"
+    | .up =>
+      match p.su with
+      | .lsleep .. => "last_sleep" | .lget .. => "last_get" | .lwTmp _ => "last_wtmp" | .lwRen _ => "last_wren"
+      | .loop =>
+        match p.ongoing with
+        | .none => "idle" | .wPrepTmp _ => "prep_wtmp" | .wPrepRen .. => "prep_wren" | .bcast .. => "bcast"
+        | .csleep .. => "conf_sleep" | .cget .. => "conf_get" | .wStartTmp .. => "start_wtmp"
+        | .wStartRen .. => "start_wren" | .backoff _ => "backoff" | .fsleep .. => "fconf_sleep"
+        | .fget .. => "fconf_get"
+
+def heldGetTx (w : World) : Option Nat :=
+  match w.proc with
+  | none => none
+  | some p =>
+    match p.su, p.ongoing with
+    | .lget _ _ t, _ => some t
+    | .loop, .cget _ t => some t
+    | .loop, .fget _ t => some t
+    | _, _ => none
+
+def hasSleeper (p : Proc) : Bool :=
+  match p.su, p.ongoing with
+  | .lsleep .., _ => true
+  | .loop, .csleep .. => true
+  | .loop, .fsleep .. => true
+  | .loop, .backoff _ => true
+  | _, _ => false
+
+/-- what the harness prints as the result of the step -/
+def resultOf (w : World) (a : Action) (w' : World) : String :=
+  let exitS :=
+    match w.proc, w'.proc with
+    | some p, none => if p.boot = .read then " exit:unreadable" else " exit:submitter"
+    | _, _ => ""
+  match a with
+  | .bump _ => "ok"
+  | .include t | .drop t => if t ∈ w.mempool then "ok" else "err:not-in-mempool"
+  | .corruptTmp _ | .tamperFile _ => if w.proc.isSome then "err:up" else "ok"
+  | .restart => if w.proc.isSome then "err:up" else "ok"
+  | .crash => if w.proc.isSome then "ok" else "err:down"
+  | _ =>
+    match w.proc with
+    | none => "err:down"
+    | some p =>
+      match a with
+      | .fs => "ok" ++ exitS
+      | .fetch => if p.inflight.isSome then "ok" ++ exitS else "err:none"
+      | .bcast _ => (match p.ongoing with | .bcast .. => "ok" ++ exitS | _ => "err:none")
+      | .gettx m =>
+        (match heldGetTx w with
+         | none => "err:none"
+         | some t =>
+           (match m, w.confirmedAt t with
+            | .err, _ => "error"
+            | _, some _ => "confirmed"
+            | .h0, none => "pending"
+            | .truth, none => "unknown") ++ exitS)
+      | .giveup =>
+        (match heldGetTx w with
+         | none => "err:none"
+         | some t =>
+           if (w.confirmedAt t).isSome then "err:confirmed"
+           else (match p.su, p.ongoing with
+                 | .loop, .cget .. => "stuck"
+                 | _, _ => "ok") ++ exitS)
+      | .wait =>
+        if p.celestiaHeld then "err:busy"
+        else (if hasSleeper p then "ok" else "idle") ++ exitS
+      | _ => "?"
+
+/-! ### parsing what the implementation reported -/
+
+structure IState where
+  file : String
+  tmp : String
+  chain : List (List Nat)     -- heights of each confirmed tx
+  procUp : Bool
+
+def parseSt (s : String) : Option FileSt :=
+  match s.splitOn ":" with
+  | ["fresh"] => some .fresh
+  | ["started", c, h] => some (.started ⟨c.toNat!, h.toNat!⟩)
+  | ["prepared", h, c, s, t] => some (.prepared h.toNat! ⟨c.toNat!, s.toNat!⟩ (t.drop 1).toString.toNat!)
+  | _ => none
+
+def field (ws : List String) (key : String) : String :=
+  match ws.find? (·.startsWith (key ++ "=")) with
+  | some w => (w.drop (key.length + 1)).toString
+  | none => ""
+
+def parseHeights (s : String) : List Nat :=
+  -- "11:t1[1,2]" → [1,2]
+  match s.splitOn "[" with
+  | [_, b] =>
+    let inner := (b.dropEnd 1).toString
+    if inner = "" then [] else (inner.splitOn ",").map String.toNat!
+  | _ => []
+
+/-- chain entries are separated by commas, and so are the heights inside `[...]` -/
+def splitEntries (s : String) : List String :=
+  if s = "-" then [] else
+  let parts := s.splitOn "]"
+  (parts.filter (· ≠ "")).map (fun p => (if p.startsWith "," then (p.drop 1).toString else p) ++ "]")
+
+def parseDump (s : String) : IState :=
+  let ws := Driver.words s
+  { file := field ws "file", tmp := field ws "tmp",
+    chain := (splitEntries (field ws "chain")).map parseHeights,
+    procUp := field ws "proc" = "up" }
+
+def splitRes (impl : String) : String × String :=
+  match impl.splitOn " | " with
+  | [a, b] => (a, b)
+  | _ => (impl, "")
+
+structure St where
+  w : World := {}
+  base : Nat := 0
+  tampered : Bool := false
+  saved : Option (Option Content) := none
+  started : Bool := false
+  /-- number the harness gave to the foreign hash of `tamper badprep` (first use per session) -/
+  foreign : Option Nat := none
+
+def corruption (foreign : Nat) (kind : String) : Option Content :=
+  match kind with
+  | "none" => none
+  | "stale" => some (.ok (.started ⟨9, 1000000⟩))
+  | "badprep" => some (.ok (.prepared 3 ⟨9, 3⟩ foreign))
+  | _ => some .bad
+
+def parseAction (ws : List String) : Option Action :=
+  match ws with
+  | ["restart", _] | ["restart"] => some .restart
+  | ["crash"] => some .crash
+  | ["fs"] => some .fs
+  | ["fetch"] => some .fetch
+  | ["bcast", "ok"] => some (.bcast .ok)
+  | ["bcast", "lost"] => some (.bcast .lost)
+  | ["bcast", "timeout-acc"] => some (.bcast (.timeout true))
+  | ["bcast", "timeout-noacc"] => some (.bcast (.timeout false))
+  | ["bcast", _] => some (.bcast .reject)
+  | ["gettx", "truth"] => some (.gettx .truth)
+  | ["gettx", "h0"] => some (.gettx .h0)
+  | ["gettx", "err"] => some (.gettx .err)
+  | ["giveup"] => some .giveup
+  | ["wait"] => some .wait
+  | ["bump", n] => some (.bump n.toNat!)
+  | ["include", t] => some (.include (t.drop 1).toString.toNat!)
+  | ["drop", t] => some (.drop (t.drop 1).toString.toNat!)
+  | "corrupttmp" :: kind :: _ => some (.corruptTmp (corruption 0 kind))
+  | _ => none
 
 def run (lines : Array String) : Driver.Report := Id.run do
   let mut r : Driver.Report := {}
+  let mut st : St := {}
   let mut n := 0
   for line in lines do
     n := n + 1
-    r := r.addDisagree n line "bad-area"
+    let (op, impl) := Driver.splitLine line
+    let (_, idump) := splitRes impl
+    match Driver.words op with
+    | ["crash", "reset", b] =>
+      let w := init b.toNat! 5
+      st := { w := w, base := b.toNat!, started := true }
+      r := r.check n line impl s!"ok | {dump w}"
+      r := r.bump "sessions"
+    | "crash" :: rest =>
+      if !st.started then
+        r := r.addDisagree n line "no-session"
+      else
+        let w := st.w
+        -- model step
+        let (w', res, tampered, saved, foreign) : World × String × Bool × Option (Option Content) × Option Nat :=
+          match rest with
+          | "tamper" :: kind :: _ =>
+            if w.proc.isSome then (w, "err:up", st.tampered, st.saved, st.foreign)
+            else if kind = "restore" then
+              match st.saved with
+              | some c => (step w (.tamperFile c), "ok", false, none, st.foreign)
+              | none => (w, "err:nosave", st.tampered, st.saved, st.foreign)
+            else
+              -- a foreign hash in the state file takes the next transaction number (once)
+              let (w1, fid, foreign) := match kind, st.foreign with
+                | "badprep", none =>
+                  ({ w with txs := w.txs ++ [⟨w.txs.length + 1, []⟩] }, w.txs.length + 1, some (w.txs.length + 1))
+                | _, some f => (w, f, some f)
+                | _, none => (w, 0, none)
+              let saved := match st.saved with | some s => some s | none => some w.file
+              (step w1 (.tamperFile (corruption fid kind)), "ok", true, saved, foreign)
+          | _ =>
+            match parseAction rest with
+            | some a =>
+              let w' := step w a
+              (w', resultOf w a w', st.tampered, st.saved, st.foreign)
+            | none => (w, "bad-op", st.tampered, st.saved, st.foreign)
+        r := r.check n line impl s!"{res} | {dump w'}"
+        r := r.bump s!"op_{rest.headD ""}"
+        r := r.bump s!"res_{(res.splitOn " ").headD ""}"
+        if res.endsWith "exit:unreadable" then r := r.bump "exit_unreadable"
+        if res.endsWith "exit:submitter" then r := r.bump "exit_submitter"
+        if rest.headD "" = "crash" ∧ res = "ok" then r := r.bump s!"crash_at_{phase w}"
+        if rest.headD "" = "fs" ∧ res.startsWith "ok" then r := r.bump s!"fs_at_{phase w}"
+        if rest.headD "" = "bcast" ∧ res.startsWith "ok" then r := r.bump s!"bcast_{rest.getD 1 ""}"
+        if rest.headD "" = "gettx" then r := r.bump s!"gettx_{res}_at_{phase w}"
+        if rest.headD "" = "giveup" then r := r.bump s!"giveup_{res}_at_{phase w}"
+        if rest.headD "" = "restart" ∧ res = "ok" then
+          r := r.bump s!"restart_file_{(fmtContent "missing" w.file |>.splitOn ":").headD ""}_tmp_{(fmtContent "-" w.tmp |>.splitOn ":").headD ""}"
+        -- monitors: the C11 spec on the implementation's own report
+        let i := parseDump idump
+        let conf := confirmedHeights i.chain
+        if !gapFree st.base conf then
+          r := r.addMonitor "no_gap" n line s!"heights confirmed on the fake Celestia chain {conf} have a gap above {st.base}"
+        if !tampered then
+          match parseSt i.file with
+          | none =>
+            r := r.addMonitor "file_parseable" n line s!"state file is `{i.file}`: not a complete parseable state"
+          | some fst =>
+            let wf := match fst with
+              | .prepared h l _ => decide (l.sh < h)
+              | _ => true
+            if !wf then
+              r := r.addMonitor "file_parseable" n line s!"state file `{i.file}` holds a prepared height <= its last submitted height"
+            if !coveredUpTo st.base conf fst.last then
+              r := r.addMonitor "recorded_confirmed" n line
+                s!"state file records sequencer height {fst.last} as submitted, confirmed on the fake chain: {conf}"
+        st := { st with w := w', tampered := tampered, saved := saved, foreign := foreign }
+    | _ => r := r.addDisagree n line "bad-area"
   return r
 
 end Driver.CrashArea
